@@ -194,10 +194,48 @@ def run_jobs(jobs, wdir, nproc=None, per_job_timeout=30):
             for idx, kind, rc in dead:
                 gi = items[idx][0]
                 results[gi] = {"id": jobs[gi]["id"], "crash": kind, "rc": rc}
+    # a job that hung is run again on its own, with a generous limit: under load (other checks, TLC with
+    # many workers) a healthy job can miss the limit, and a verdict that depends on the machine's mood is worthless
+    hung = [i for i, r in enumerate(results) if r is not None and r.get("crash") == "timeout"]
+    for k, i in enumerate(hung[:200]):
+        jp = os.path.join(wdir, "retry.%d.ndjson" % k)
+        op = os.path.join(wdir, "retry.%d.out.ndjson" % k)
+        with open(jp, "w") as f:
+            f.write(json.dumps(jobs[i]) + "\n")
+        dead = _run_shard(exe, jp, op, 1, max(240, 8 * per_job_timeout))
+        if not dead:
+            with open(op) as f:
+                for line in f:
+                    d = json.loads(line)
+                    if "start" not in d:
+                        d["retried_after_timeout"] = True
+                        results[i] = d
+        for q in (jp, op):
+            try:
+                os.remove(q)
+            except OSError:
+                pass
     for i, r in enumerate(results):
         if r is None:
             raise ToolError("no result for job %d" % i)
     return results
+
+
+_PATIENT = None
+
+
+def patient_run(cmd, timeout, retry_timeout=None, **kw):
+    """subprocess.run with a timeout; a run that misses it is repeated once, alone (one retry at a time),
+    with eight times the limit (at least 4 minutes).  Raises subprocess.TimeoutExpired only if that fails too."""
+    global _PATIENT
+    import threading
+    if _PATIENT is None:
+        _PATIENT = threading.Lock()
+    try:
+        return subprocess.run(cmd, timeout=timeout, **kw)
+    except subprocess.TimeoutExpired:
+        with _PATIENT:
+            return subprocess.run(cmd, timeout=retry_timeout or max(240, 8 * timeout), **kw)
 
 
 # --------------------------------------------------------------------------
